@@ -296,8 +296,8 @@ theorem rawBnd_le_bndR (rss : List (List Bytes)) (hrss : RssOk rss) (ht : totalS
 /-! ### `ResetPartition` on these files -/
 
 theorem resetPartition_rec (rss : List (List Bytes)) (hrss : RssOk rss) (hne : rss ≠ [])
-    (ht : totalSize (recFiles rss) < 2^62) (s : Base) (hs : s.files = recFiles rss) (k n : Nat)
-    (hk : k < n) (hn : n < 2^32) :
+    (ht : totalSize (recFiles rss) < 2^62) (s : Base) (hs : s.files = recFiles rss) (hc : ClearsOk s)
+    (k n : Nat) (hk : k < n) (hn : n < 2^32) :
     ∃ s', resetPartition Fmt.recordio s k n = .ok s' ∧ Clean s' ∧ RInv s' ∧ s'.files = s.files ∧
       s'.bufWords = s.bufWords ∧ s'.chunk.dataWords = s.chunk.dataWords ∧
       ((s'.offBegin = bndR rss n k ∧ s'.offEnd = bndR rss n (k + 1)) ∨
@@ -320,9 +320,10 @@ theorem resetPartition_rec (rss : List (List Bytes)) (hrss : RssOk rss) (hne : r
   generalize rawBnd Fmt.recordio s.files n (k + 1) = oe at *
   by_cases heq : ob = oe
   · subst heq
-    rw [rpCore_empty]
-    refine ⟨_, rfl, ⟨rfl, rfl, Or.inl (Nat.le_refl _)⟩, ⟨hfne, hoeT, Or.inl (Nat.le_refl _)⟩, rfl, rfl, rfl,
-      Or.inr ⟨Nat.le_refl _, ?_⟩⟩
+    obtain ⟨s', hs', r1, r2, r3, r4, r5, r6, r7⟩ := rpCore_empty_spec Fmt.recordio s ob hc
+    have hee : s'.offEnd ≤ s'.offBegin := by rw [r4, r5]; exact Nat.le_refl _
+    refine ⟨s', hs', ⟨r1, r2, Or.inl hee⟩,
+      ⟨by rw [r3]; exact hfne, by rw [r5, r3]; exact hoeT, Or.inl hee⟩, r3, r6, r7, Or.inr ⟨hee, ?_⟩⟩
     rw [hbk] at hbk1
     injection hbk1
   · have hlt : ob < oe := by omega
@@ -334,20 +335,20 @@ theorem resetPartition_rec (rss : List (List Bytes)) (hrss : RssOk rss) (hne : r
       injection hse with hse; injection hsb with hsb
       subst hse; subst hsb
       rw [h1]
-      have key : ∀ t : Base, t.fpos = some pos → t.files = s.files → t.offBegin = bndR rss n k →
+      have key : ∀ t : Base, ClearsOk t → t.fpos = some pos → t.files = s.files → t.offBegin = bndR rss n k →
           t.offEnd = bndR rss n (k + 1) → t.bufWords = s.bufWords → t.chunk.dataWords = s.chunk.dataWords →
           ∃ s', beforeFirst t = .ok s' ∧ Clean s' ∧ RInv s' ∧ s'.files = s.files ∧
             s'.bufWords = s.bufWords ∧ s'.chunk.dataWords = s.chunk.dataWords ∧
             ((s'.offBegin = bndR rss n k ∧ s'.offEnd = bndR rss n (k + 1)) ∨
              (s'.offEnd ≤ s'.offBegin ∧ bndR rss n k = bndR rss n (k + 1))) := by
-        intro t hp hf hb he hw hd
+        intro t hct hp hf hb he hw hd
         have hoe : t.offEnd ≤ totalSize t.files := by rw [he, hf]; exact hle1
         obtain ⟨s', hs'⟩ := beforeFirst_ok t pos hp hoe
-        obtain ⟨c1, c2, c3, c4, c5, c6, c7⟩ := beforeFirst_spec t s' (by rw [hf]; exact hfne) hoe
+        obtain ⟨c1, c2, c3, c4, c5, c6, c7⟩ := beforeFirst_spec t s' (by rw [hf]; exact hfne) hct hoe
           (by rw [hf]; exact ht') hs'
         exact ⟨s', hs', c1, c2, by rw [c3, hf], by rw [c6, hw], by rw [c7, hd],
           Or.inl ⟨by rw [c4, hb], by rw [c5, he]⟩⟩
-      exact key _ rfl rfl rfl rfl rfl rfl
+      exact key _ (hc.elim Or.inl Or.inr) rfl rfl rfl rfl rfl rfl
 
 /-! ### the records of a part -/
 
